@@ -78,7 +78,9 @@ def prod(
     where = kwargs.pop("where", True)
     if where is not True:
         # elements left out of the product count as one
-        a = numpoly.where(numpy.broadcast_to(where, a.shape), a, 1)
+        a = numpoly.where(
+            numpy.broadcast_to(where, a.shape), a, numpy.ones((), dtype=a.dtype)
+        )
     initial = kwargs.pop("initial", None)
     if initial is not None:
         return numpoly.multiply(
